@@ -189,6 +189,10 @@ def answerNb (s : St) (toks : List String) : String :=
       vmF (lSurrogate sc pf w κ s.b s.wb cur z y x) (lSurrogate sc pf.abs wA κA s.b s.wb cur z y x)
   | _ => "bad-op"
 
+/-- evaluate an image once on the box and store it (the C++ keeps these intermediate images in arrays, too) -/
+def materialise (b : Box) (f : Img Float) : Img Float :=
+  mkImg 0 b ((voxels b).map fun (z, y, x) => f z y x).toArray
+
 /-- PLS (`kind = 3`).  The implementation evaluates everything in `float`; the conditioning of
     `sqrt(alpha^2 + |g|^2 - <g,xi>^2)` enters the magnitude as `(alpha^2 + 2|g|^2) / penalty^2`. -/
 def answerPls (s : St) (toks : List String) : String :=
@@ -197,10 +201,14 @@ def answerPls (s : St) (toks : List String) : String :=
   let κ : Option (Img Float) := s.kappa.map fun a => s.imgF a
   let cur := s.imgF s.cur
   let only2d := s.only2d   -- the harness calls set_only_2D() after construction
-  let A := plsSetUp only2d η s.b (s.imgF s.anat)
-  let gz := plsGradElem s.b 0 cur; let gy := plsGradElem s.b 1 cur; let gx := plsGradElem s.b 2 cur
-  let ip := plsInner only2d A gz gy gx
-  let pen := plsPenalty only2d α ip gz gy gx
+  let mat := materialise s.b
+  -- `set_up` and `compute_inner_product_and_penalty`, stage by stage as in `plsSetUp` / `plsFields`
+  let A0 := plsSetUp only2d η s.b (s.imgF s.anat)
+  let A : PlsAnat Float := { az := mat A0.az, ay := mat A0.ay, ax := mat A0.ax, norm := mat A0.norm }
+  let gz := mat (plsGradElem s.b 0 cur); let gy := mat (plsGradElem s.b 1 cur); let gx := mat (plsGradElem s.b 2 cur)
+  let ip := mat (plsInner only2d A gz gy gx)
+  let pen := mat (plsPenalty only2d α ip gz gy gx)
+  let F : PlsFields Float := { gz := gz, gy := gy, gx := gx, ip := ip, pen := pen }
   let g2 (z y x : Int) : Float := (if only2d then 0 else sq (gz z y x)) + sq (gy z y x) + sq (gx z y x)
   let cond (z y x : Int) : Float := (sq α + 2 * g2 z y x) / sq (pen z y x)
   let kap (z y x : Int) : Float := match κ with | none => 1 | some k => (k z y x).abs
@@ -211,7 +219,7 @@ def answerPls (s : St) (toks : List String) : String :=
     decide (s.b.z0 ≤ z) && decide (z ≤ s.b.z1) && decide (s.b.y0 ≤ y) && decide (y ≤ s.b.y1) && decide (s.b.x0 ≤ x) && decide (x ≤ s.b.x1)
   match toks with
   | ["value"] =>
-    vmF (plsValue only2d α pf A κ s.b cur)
+    vmF (if pf == 0 then 0 else plsValueOf pf F κ s.b)
         (voxSum s.b (fun z y x => pen z y x * cond z y x * kap z y x) * pf.abs)
   | ["grad"] =>
     joinS <| (voxels s.b).map fun (z, y, x) =>
@@ -219,7 +227,7 @@ def answerPls (s : St) (toks : List String) : String :=
         fluxErr gx A.ax z y x + (if inImg z y (x - 1) then fluxErr gx A.ax z y (x - 1) else 0)
         + fluxErr gy A.ay z y x + (if inImg z (y - 1) x then fluxErr gy A.ay z (y - 1) x else 0)
         + (if only2d then 0 else fluxErr gz A.az z y x + (if inImg (z - 1) y x then fluxErr gz A.az (z - 1) y x else 0))
-      vmF (plsGrad only2d α pf A κ s.b cur z y x) (e * kap z y x * pf.abs)
+      vmF (if pf == 0 then 0 else plsGradOf only2d pf A F κ s.b z y x) (e * kap z y x * pf.abs)
   | _ => "bad-op"
 end float
 
